@@ -7,8 +7,9 @@ M = "pyrtcm.rtcmmessage.RTCMMessage"
 TRUSTED = []
 ASSUMPTIONS = ["_get_dict / ismsm: exhaustive case split over all 4095+256 identity headers, each case decided by evaluating "
                "the real AST with the header bytes concrete and the tail symbolic"]
-ARGUED = ["'for implemented types the decoded message-number field equals the identity': every definition starts with DF002 "
-          "(ground lemma) + leaf contract of DF002 at offset 0 (C03-L1) + identity.post"]
+ARGUED = ["'for implemented types the decoded message-number field equals the identity': every definition starts with DF002 / "
+          "DF002, IDF001, IDF002 (ground lemma) + leaf contract of those fields (L1 units included here) + identity.post + the lemmas "
+          "client.df002_leaf_value_is_identity_number / client.idf002_leaf_value_is_4076_subtype - only the chaining of these is argued"]
 EXPLANATION = ("identity is proved for all payloads (symbolic header bytes) against an integer-arithmetic spec; dispatch, the MSM "
                "predicate and the unknown-type stub for every one of the 4351 possible identity headers; serialize of a stub by C07.")
 
@@ -39,6 +40,8 @@ def units(tier):
     from pyvc import clientrun
     us.append(clientrun.unit("stub_serializes_to_same_frame", clientrun.lemma_parse_serialize))
     us.append(clientrun.unit("crc_split", clientrun.lemma_crc_split))
+    us.append(clientrun.unit("df002_is_identity", clientrun.lemma_df002_is_identity))
+    us += func_units(f"{M}._set_attribute_single", tier, only=lambda i: i["field"] in ("DF002", "IDF001", "IDF002"))
     return us
 
 
